@@ -839,7 +839,9 @@ func runBrokerPairs(r *h.Run, c h.Conf, kind string) {
 		if err != nil {
 			r.Violate("lost-pair", yctx+" step=lonely-accept", err.Error())
 		} else {
-			time.Sleep(time.Duration(200+w.Range("staleinfo/hold", 4)*900) * time.Millisecond)
+			// (also: the second accept late in the first one's window and the dial
+			// after that window has closed, still well inside the second's)
+			time.Sleep([]time.Duration{200, 1100, 2000, 2900, 4000, 4600}[w.Range("staleinfo/hold", 6)] * time.Millisecond)
 			r.Do("StopLonely", 30*time.Second, func() (any, error) { stop(); return nil, nil })
 			time.Sleep(time.Duration(w.Range("staleinfo/pause", 3)) * 300 * time.Millisecond)
 			// (judged only if nothing was held up for a sizeable part of the 300 ms
@@ -850,7 +852,7 @@ func runBrokerPairs(r *h.Run, c h.Conf, kind string) {
 			if err != nil {
 				r.Violate("lost-pair", yctx+" step=accept", err.Error())
 			} else {
-				time.Sleep(300 * time.Millisecond)
+				time.Sleep([]time.Duration{300, 300, 1500}[w.Range("staleinfo/dialdelay", 3)] * time.Millisecond)
 				o := r.Do(fmt.Sprintf("StaleInfoDial(%d)", yid), 60*time.Second, func() (any, error) {
 					if hostAccepts {
 						return s.cmd.Do("dial", fmt.Sprint(yid))
@@ -1082,6 +1084,14 @@ func init() {
 			}
 			for _, si := range []string{"h", "p"} {
 				out = append(out, sp("C07", "fixed-staleinfo/"+si, seed, P("tls", "none", "launch", "cmd", "fixed", "1", "dir", "h", "ord", "a", "gap", "0", "staleinfo", si)))
+				for hold := 0; hold < 6; hold++ {
+					for dd := 1; dd < 3; dd++ {
+						s := sp("C07", fmt.Sprintf("fixed-staleinfo/%s/hold%d/dial%d", si, hold, dd), seed, P("tls", "none", "launch", "cmd", "fixed", "1", "dir", "h", "ord", "a", "gap", "0", "staleinfo", si))
+						s.Explicit = true
+						s.Overrides = map[string]int64{"staleinfo/hold#0": int64(hold), "staleinfo/dialdelay#0": int64(dd)}
+						out = append(out, s)
+					}
+				}
 			}
 			for _, rt := range []string{"hd", "pd", "ha", "pa"} {
 				out = append(out, sp("C07", "fixed-retry/"+rt, seed, P("tls", "none", "launch", "cmd", "fixed", "1", "dir", "h", "ord", "a", "gap", "0", "retry", rt)))
@@ -1175,6 +1185,14 @@ func init() {
 			}
 			for _, st := range []string{"h", "p"} {
 				out = append(out, sp("C08", "fixed-stale-dialler/"+st, seed, P("fixed", "1", "tls", "none", "dir", "h", "ord", "a", "gap", "0", "stale", st)))
+			}
+			for v := 0; v < 6; v++ {
+				s := sp("C08", fmt.Sprintf("fixed-samenum/%d", v), seed+uint64(v)*7919, P("fixed", "1", "tls", "none", "dir", "h", "ord", "a", "gap", "0", "samenum", "1"))
+				if v > 1 {
+					s.HotPermille, s.DelayClass = 80, "tiny"
+					s.Focus = "GRPCBroker.knock,GRPCBroker.listenForKnocks,GRPCBroker.Run"
+				}
+				out = append(out, s)
 			}
 			for _, rd := range []string{"h", "p"} {
 				nv := 60
@@ -1536,6 +1554,45 @@ func runC08(r *h.Run) {
 		po := r.DoNoHang("Ping(after-reaccept)", 60*time.Second, actx, func() (any, error) { return nil, s.cp.Ping() })
 		if po.Err != nil && !noisy() {
 			r.Violate("main-conn-lost", actx, fmt.Sprintf("ping failed: %v", po.Err))
+		}
+	}
+	// the same NUMBER in use in both directions at once (both brokers count
+	// their ids from 1): each side listens on n, and the dials alternate
+	if c.TLS != "auto" && lateMark == "" && !noisy() && (r.Spec.P("samenum", "") != "" || (r.Spec.P("fixed", "") != "1" && w.Range("samenum/on", 4) == 0)) {
+		n := uint32(2100)
+		nctx := "broker=grpcmux same-number-both-directions"
+		hstop, herr := h.HostAcceptOwn(s.cmd, n)
+		_, perr := s.cmd.Do("acceptown", fmt.Sprint(n))
+		if herr != nil || perr != nil {
+			r.Violate("lost-pair", nctx+" step=accept", fmt.Sprint(herr, perr))
+		} else {
+			order := []bool{true, false, true, false, false, true}
+			if w.Range("samenum/first", 2) == 1 {
+				order = []bool{false, true, false, true, true, false}
+			}
+			for i, hostDials := range order {
+				o := r.Do(fmt.Sprintf("SameNumberDial(%d)#%d", n, i), 60*time.Second, func() (any, error) {
+					if hostDials {
+						return h.HostDialPing(s.cmd, n)
+					}
+					return s.cmd.Do("dial", fmt.Sprint(n))
+				})
+				step := fmt.Sprintf("dial#%d-by-%s", i, map[bool]string{true: "host", false: "plugin"}[hostDials])
+				if o.Hung {
+					r.Violate("hang", "op=Dial "+nctx+" "+step, "dial never returned")
+					break
+				} else if o.Err != nil {
+					if !noisy() {
+						r.Violate("lost-pair", nctx+" "+step, fmt.Sprintf("both sides listen on id %d; this dial failed: %v", n, o.Err))
+					}
+					break
+				} else if o.Val.(string) != fmt.Sprintf("id=%d", n) {
+					r.Violate("misroute", nctx+" "+step, fmt.Sprint(o.Val))
+				}
+			}
+			w.Probe("mux.same-number-both-directions")
+			r.Do("StopOwnServer(samenum)", 30*time.Second, func() (any, error) { hstop(); return nil, nil })
+			s.cmd.Do("stopown", fmt.Sprint(n))
 		}
 	}
 	// the SAME listener dialled a second time (a second connection to the same
